@@ -26,7 +26,7 @@ def bounds(tier):
     n = 22 if tier == "thorough" else 18
     return {
         "H03a": "fully symbolic buffers: SOMEIPSDHeader.parse 0..%d bytes; SOMEIPSDEntry.parse 0..17 bytes with symbolic option count; SOMEIPSDOption.parse 0..%d bytes and, per registered type, exact-size and off-by-one payloads; SOMEIPHeader.parse: see C01/H01b" % (n, 10 if tier == "thorough" else 8),
-        "H03t": "3 SD templates (all entry types, all option kinds) and the SOME/IP frame: windows of %s symbolic bytes at every position, truncation at every position, inserted symbolic byte, duplicated regions" % ("1..4" if tier == "thorough" else "1 (every position) and 4 (every 4th)"),
+        "H03t": "3 SD templates (all entry types, all option kinds) and the SOME/IP frame: windows of %s symbolic bytes at every position, truncation at every position, inserted symbolic byte, duplicated regions" % ("1, 2 (every position) and 3, 4 (every 2nd)" if tier == "thorough" else "1 (every position) and 4 (every 4th)"),
         "H03b": "live ServiceDiscoveryProtocol (watch-all listener, announced instance with server listener, one accepted offer and one subscription) and SimpleService with three handlers: same template family through datagram_received on both channels; twin endpoint receives the datagram with the rejected messages removed",
     }
 
